@@ -587,6 +587,7 @@ func c14Cache(c *Ctx) {
 		c.Check(len(aged) >= 1, "C14-R3", "queryCache.gc:age test found", gc.Decl.Pos(), itoa(len(aged))+" aged field(s)", "no now.Sub(entry.field) staleness test found")
 	}
 
+	c14KeyClockFree(c)
 	cacheExpiryWriters(c, "C14-R3")
 
 	// CacheKey coverage
@@ -673,4 +674,63 @@ func c14Cache(c *Ctx) {
 			}
 		}
 	}
+}
+
+// c14KeyClockFree: what goes into an in-flight lock key must be the same for
+// the same question asked a moment later. The String() of every
+// RangeQueryTimes implementation (part of RangeQuery's key) therefore must not
+// reach time.Now/time.Since, directly or through module functions (depth 3).
+func c14KeyClockFree(c *Ctx) {
+	p := c.P
+	it := p.LookupType("internal/promapi", "RangeQueryTimes")
+	if it == nil {
+		c.Undecided("C14-R1", "anchor:RangeQueryTimes", token.NoPos, "interface not found")
+		return
+	}
+	iface, ok := it.Type().Underlying().(*types.Interface)
+	if !ok {
+		return
+	}
+	var reaches func(fi *FuncInfo, depth int, seen map[*FuncInfo]bool) string
+	reaches = func(fi *FuncInfo, depth int, seen map[*FuncInfo]bool) string {
+		if fi == nil || fi.Decl.Body == nil || seen[fi] || depth > 3 {
+			return ""
+		}
+		seen[fi] = true
+		info := fi.Pkg.TypesInfo
+		found := ""
+		ast.Inspect(fi.Decl.Body, func(n ast.Node) bool {
+			call, ok := n.(*ast.CallExpr)
+			if !ok || found != "" {
+				return true
+			}
+			fn := Callee(info, call)
+			if fn == nil || fn.Pkg() == nil {
+				return true
+			}
+			if fn.Pkg().Path() == "time" && (fn.Name() == "Now" || fn.Name() == "Since" || fn.Name() == "Until") {
+				found = fi.Name + " -> time." + fn.Name()
+				return true
+			}
+			if callee := p.FuncOf(fn); callee != nil {
+				if r := reaches(callee, depth+1, seen); r != "" {
+					found = fi.Name + " -> " + r
+				}
+			}
+			return true
+		})
+		return found
+	}
+	n := 0
+	for _, tn := range p.implementers(iface) {
+		m := p.methodOn(typeQName(tn.Type()), "String")
+		if m == nil {
+			continue
+		}
+		n++
+		via := reaches(m, 0, map[*FuncInfo]bool{})
+		c.Check(via == "", "C14-R1", typeQName(tn.Type())+".String:lock key part does not depend on the wall clock", m.Decl.Pos(), "no time.Now on the way",
+			"the text that identifies a range query in the in-flight lock key reads the clock ("+via+"): the same question asked a second later gets another key, so identical slice requests run concurrently and reach the server more than once")
+	}
+	c.Check(n >= 1, "C14-R1", "RangeQueryTimes implementations enumerated", it.Pos(), itoa(n), "no implementation with a String method found")
 }
